@@ -1,5 +1,133 @@
 import FcpptModel.Prelude.Proto
-/-! Driver for C19 — placeholder until the property's model is built. -/
+import FcpptModel.Spec.C19
+/-!
+Driver for C19 (history protocol; one context at a time).
+
+* `reset`                      — fresh context, root level 3, default level-stream formatters     → `ok`
+* `ctx <lvl> <D|N|M>`          — fresh context with that root level; stream formatters: D = `default_level`
+                                 on every level, N = none, M = `default_level` on even levels only    → `ok`
+* `set <loc> <lvl>`            — `context::set`                                                     → `ok`
+* `get <loc>`                  — `context::get`                                                     → `lvl=<l>`
+* `objr <name> <fmt>`          — `object(context, params)`                                          → `obj=<id> lvl=<l> en=<bits>`
+* `objl <loc> <name> <fmt>`    — `object(context, location, params)`
+* `objc <id> <name> <fmt>`     — `object(objects[id], params)`
+* `lvl <id>`                   — `object::level`, `enabled` for the six levels                      → `lvl=<l> en=<bits>`
+* `log <id> <level> <msg>`     — `object::log`                                                      → `emit=-` | `emit=<sink>|<text>`
+* `logm <id> <level> <msg>`    — the same through `FCPPT_LOG_<LEVEL>` (level_if_enabled.hpp)
+
+`<loc>` = `-` (empty) or names joined by `.`; the name `_` stands for the empty string.
+`<lvl>` = `0`…`5` or `-` (disabled).  `<fmt>` = `-` (no formatter) or a tag `T`: `s ↦ T<s>`.
+In the emitted text a newline is printed as `\n`.
+-/
 namespace Fcppt.C19.Drv
-def main : IO Unit := Fcppt.Proto.run (fun _ => "not-built")
+open Fcppt.Proto
+
+structure St where
+  root : Level
+  tree : Tree
+  cfg : Char
+  objs : Array Obj
+  sets : List (Loc × Level)     -- for the run-time cross-check against the spec
+
+def fresh (root : Level) (cfg : Char) : St := ⟨root, mkRoot root, cfg, #[], []⟩
+
+def parseName (s : String) : String := if s = "_" then "" else s
+
+def parseLoc (s : String) : Option Loc :=
+  if s = "-" then some [] else
+  let parts := s.splitOn "."
+  if parts.any (· = "") then none else some (parts.map parseName)
+
+def parseLevel (s : String) : Option Level :=
+  if s = "-" then some none else
+  match s.toNat? with
+  | some n => if n < levelCount then some (some n) else none
+  | none => none
+
+def parseLvlNat (s : String) : Option Nat :=
+  match s.toNat? with
+  | some n => if n < levelCount then some n else none
+  | none => none
+
+def parseFmt (s : String) : OptFn :=
+  if s = "-" then none else some (fun t => s ++ "<" ++ t ++ ">")
+
+def streams (cfg : Char) (l : Nat) : OptFn :=
+  if cfg = 'D' then some (defaultLevel l)
+  else if cfg = 'M' then (if l % 2 = 0 then some (defaultLevel l) else none)
+  else none
+
+def showLevel : Level → String
+  | none => "-"
+  | some l => toString l
+
+def esc (s : String) : String := (s.replace "\\" "\\\\").replace "\n" "\\n"
+
+def objLine (s : St) (o : Obj) : String :=
+  match objLevel s.tree o with
+  | .error f => "fault:" ++ f.name
+  | .ok l =>
+    let bits := String.ofList ((List.range levelCount).map fun k => if enabledAt l k then '1' else '0')
+    -- run-time cross-check of the theorem `object_level_eq_latest_prefix`
+    if l = levelOf s.root s.sets o.node then s!"lvl={showLevel l} en={bits}" else "MODEL-SPEC-MISMATCH"
+
+def addObj (s : St) (r : Tree × Obj) : St × String :=
+  let s' := { s with tree := r.1, objs := s.objs.push r.2 }
+  (s', s!"obj={s.objs.size} " ++ objLine s' r.2)
+
+def doLog (s : St) (id lvl msg : String) : String :=
+  match id.toNat?, parseLvlNat lvl with
+  | some i, some l =>
+    match s.objs[i]? with
+    | none => "bad-op"
+    | some o =>
+      match objLog s.tree (streams s.cfg) o l msg with
+      | .error f => "fault:" ++ f.name
+      | .ok none => "emit=-"
+      | .ok (some t) => s!"emit={l}|{esc t}"
+  | _, _ => "bad-op"
+
+def handle (s : St) (toks : List String) : St × String :=
+  match toks with
+  | ["reset"] => (fresh (some 3) 'D', "ok")
+  | ["ctx", l, c] =>
+    match parseLevel l with
+    | some r => if c = "D" ∨ c = "N" ∨ c = "M" then (fresh r (c.front), "ok") else (s, "bad-op")
+    | none => (s, "bad-op")
+  | ["set", loc, l] =>
+    match parseLoc loc, parseLevel l with
+    | some p, some v => ({ s with tree := ctxSet s.tree p v, sets := s.sets ++ [(p, v)] }, "ok")
+    | _, _ => (s, "bad-op")
+  | ["get", loc] =>
+    match parseLoc loc with
+    | some p =>
+      let l := ctxGet s.tree p
+      -- run-time cross-check of the theorem `get_eq_latest_prefix`
+      (s, if l = levelOf s.root s.sets p then "lvl=" ++ showLevel l else "MODEL-SPEC-MISMATCH")
+    | none => (s, "bad-op")
+  | ["objr", name, f] => addObj s (objRoot s.tree (parseName name) (parseFmt f))
+  | ["objl", loc, name, f] =>
+    match parseLoc loc with
+    | some p => addObj s (objAt s.tree p (parseName name) (parseFmt f))
+    | none => (s, "bad-op")
+  | ["objc", id, name, f] =>
+    match id.toNat? with
+    | some i =>
+      match s.objs[i]? with
+      | some p => addObj s (objChild s.tree p (parseName name) (parseFmt f))
+      | none => (s, "bad-op")
+    | none => (s, "bad-op")
+  | ["lvl", id] =>
+    match id.toNat? with
+    | some i =>
+      match s.objs[i]? with
+      | some o => (s, objLine s o)
+      | none => (s, "bad-op")
+    | none => (s, "bad-op")
+  | ["log", id, l, msg] => (s, doLog s id l msg)
+  | ["logm", id, l, msg] => (s, doLog s id l msg)
+  | _ => (s, "bad-op")
+
+def main : IO Unit := Proto.runState (fresh (some 3) 'D') handle
+
 end Fcppt.C19.Drv
